@@ -178,6 +178,14 @@ class Tape:
         raise TapeError(f"unknown kind {kind}")
 
     def _is_nondiff(self, kind, v, p, out):
+        if out.size and not np.all(np.isfinite(out)):
+            return True  # left the finite domain: no derivative to compare with
+        if kind == "ew1" and p["fn"] in ("sqrt", "log", "reciprocal"):
+            return bool(np.any(v[0] <= 0)) if p["fn"] != "reciprocal" else bool(np.any(v[0] == 0))
+        if kind == "ew2" and p["fn"] == "div":
+            return bool(np.any(v[1] == 0))
+        if kind == "ew2" and p["fn"] == "power":
+            return bool(np.any((v[0] == 0) & (np.asarray(v[1]) < 1)))
         if kind == "ew1" and p["fn"] == "abs":
             return bool(np.any(v[0] == 0))
         if kind == "ew2" and p["fn"] in ("maximum", "minimum"):
